@@ -25,6 +25,10 @@ func TestReplay(t *testing.T) {
 		key, msg = replayScenario(f.Script, judgeC10)
 	case "TestC11Hub":
 		key, msg = replayScenario(f.Script, judgeC11b)
+	case "TestC01Hub":
+		key, msg = replayScenario(f.Script, judgeC10)
+	case "TestC09Hub":
+		key, msg = replayScenario(f.Script, judgeC09Hub)
 	default:
 		t.Fatalf("no replay handler for %s", f.Test)
 	}
